@@ -19,6 +19,7 @@ import (
 	_ "embed"
 	"encoding/json"
 	"fmt"
+	"go/token"
 	"io/ioutil"
 	"os"
 	"os/exec"
@@ -543,6 +544,26 @@ func storedList(w *workspace) []string {
 	return l
 }
 
+// generatable reports whether every requested file carries the $Go.package /
+// $Go.import annotations the generator documents as mandatory, with a
+// package name that is a legal Go package name.  (testdata/const.capnp.out
+// declares package "const" and testdata/go.capnp.out has no $Go.import; the
+// repository's own TestDefineFile does not feed them to the generator either.)
+func generatable(d *SchemaDesc) (bool, string) {
+	for _, f := range d.Files {
+		if !f.Requested {
+			continue
+		}
+		if f.Import == "" || f.Pkg == "" {
+			return false, f.Filename + ": missing $Go.package/$Go.import"
+		}
+		if !token.IsIdentifier(f.Pkg) {
+			return false, f.Filename + ": $Go.package(" + f.Pkg + ") is not a legal Go package name"
+		}
+	}
+	return true, ""
+}
+
 func prepareStored(rec *common.Recorder, cfg *common.Config, w *workspace, i uint64) *job {
 	files := storedList(w)
 	if int(i) >= len(files) {
@@ -576,6 +597,12 @@ func prepareStored(rec *common.Recorder, cfg *common.Config, w *workspace, i uin
 		return j
 	}
 	desc.finishGroups()
+	if ok, why := generatable(desc); !ok {
+		rec.Logf("stored request %s skipped: %s", base, why)
+		rec.Count("stored_requests_not_generatable", 1)
+		j.skip = true
+		return j
+	}
 	j.desc = desc
 	j.place = map[string]string{}
 	j.actual = map[uint64]string{}
